@@ -78,6 +78,15 @@ reads `x.attr`).  leaf_semantics: a validity bound compared with the date cut to
 resource's calendar (`calendar or DEFAULT_CALENDAR`, `if not self.calendar`) is refuted when a calendar class defines
 __len__ / __bool__ (an empty DirectCalendar would be replaced / ignored); without such a method it is silent.
 
+Round 5 additions.  run_block remembers the plain locals assigned on the executed path, so single-exit spellings
+(`available = ..` in every arm of an if/elif/else or overwritten by later ifs, `return available`) are read like the
+early-return form; `_value_field` looks through such a local.  A loop-free fold whose operand stream goes through a local
+generator is recognised, and `sum(..)` / `prod(..)` of the empty stream is evaluated as 0 / 1 (so `sum(..)` alone and
+`sum(..) or None` are refuted: 0 instead of None / None instead of 0).  validation: a zero test applied to the operand
+*after* promotion (`FixedCalendar(other) == 0`, no __eq__) is refuted.  SearchSim evaluates generator expressions, list
+comprehensions, next(), list subscripts (a search written as `next(d for d in candidates if ..)` without a default is
+refuted: StopIteration instead of RuntimeError).
+
 The decision procedures evaluate the (loop free) blocks over finite abstract domains (see c17_util): unit values by
 sign class {None, <0, 0, >0}, dates by their position against a validity interval, direction in {-1, +1}.
 
@@ -718,7 +727,8 @@ def _functional(ctx, o, orr, osb, f, K, d):
             if st is not None and not any(any(y is n for y in ast.walk(x)) for x, _, _ in streams if x is not n):
                 streams.append((n, xn, st))
     # an inner generator of a recognised stream is not a stream of its own
-    streams = [t for t in streams if not any(t[0] is not u[0] and any(y is t[0] for y in ast.walk(u[0])) for u in streams)]
+    streams = [t for t in streams if not any(t[0] is not u[0] and (any(y is t[0] for y in ast.walk(u[0])) or any(
+        type(y) is type(t[1]) and y is not u[1] and same(y, t[1]) for y in ast.walk(u[1]))) for u in streams)]
     if len(streams) != 1:
         return False
     node, S, (it, filt) = streams[0]
@@ -755,6 +765,8 @@ def _functional(ctx, o, orr, osb, f, K, d):
             m = match("list($x)", S)
             if nonempty:
                 env.append((R, sr, 'sign'))
+            elif empty != 'raise':
+                env.append((R, empty, 'exact'))             # sum([]) == 0, prod([]) == 1
             r = run_block(f.body, Ev(env), ex)
             case = "no operand has information" if not nonempty else f"the fold is {SIGN_NAME[sr]}"
             if r.kind == 'unknown':
@@ -1556,6 +1568,30 @@ def _start_end_guard(ctx, o, f, gs, cls):
              f"a validity interval with start after end is accepted")
 
 
+def _zero_test_on_promoted(ctx, o, f, g, other):
+    """the `== 0` test of the division guard is applied to the operand *after* promotion: for a number that is a
+    calendar object (`FixedCalendar(other) == 0`), which never equals 0 unless the class defines __eq__.  True after
+    a refutation"""
+    prog = ctx.prog
+    for cl in g.clauses:
+        for a, p in cl:
+            c = U.compare_atom(a, p)
+            if c is None or c[1] != '==':
+                continue
+            for X, k in ((c[0], c[2]), (c[2], c[0])):
+                if facts.const_num(k) is None or facts.const_num(k) != 0:
+                    continue
+                for conds, leaf in _ret_leaves(X):
+                    if isinstance(leaf, ast.Call) and isinstance(leaf.func, ast.Name) and leaf.func.id in prog.classes and \
+                            any(ci.name == 'IWorkCalendar' for ci in prog.mro(leaf.func.id)) and U.mentions(leaf, other) and \
+                            not any('__eq__' in ci.methods for ci in prog.mro(leaf.func.id)):
+                        o.refute(f, g.raise_node, a, f"the division guard tests the operand after promotion: for a number it compares "
+                                                     f"`{src(leaf)}` (a calendar object, no __eq__) with 0, which is never equal - "
+                                                     f"`calendar / 0` is accepted; test `{other} == 0` before promoting")
+                        return True
+    return False
+
+
 def _validation(ctx):
     prog = ctx.prog
     o = ctx.ob('validation', 'R2', "RuntimeError guards: week days outside 0..6 (days list and units_per_day keys), start after "
@@ -1611,6 +1647,8 @@ def _validation(ctx):
                 o.refute(f, g.raise_node, g.raise_node, "the division guard also rejects non-zero numbers")
             else:
                 o.site(f, g.raise_node, f"`{other} == 0` -> RuntimeError")
+        elif unknown and _zero_test_on_promoted(ctx, o, f, unknown[0], other):
+            pass
         elif unknown:
             o.undecided(f, unknown[0].raise_node, unknown[0].raise_node, f"division guard: {unknown[1].why}")
         elif _unfollowed(ctx, f, [other]) and not all(
@@ -1642,8 +1680,16 @@ def _value_field(ctx, cls):
         m = match("self.$f", v)
         if m:
             out.add((m['f'], 'scalar'))
+    fl = flow_of(f)
     for r in [n for n in walk_no_nested(f.node) if isinstance(n, ast.Return) and n.value is not None]:
-        leaf(ex.expand(r.value))
+        v = ex.expand(r.value)
+        defs = [d for d in fl.defs_of(v.id) if d.kind == 'assign' and d.value is not None] if isinstance(v, ast.Name) else []
+        if defs:
+            # single exit: `available = ..` in every arm of an if/elif/else, `return available`
+            for d in defs:
+                leaf(ex.expand(d.value, d.node))
+        else:
+            leaf(v)
     if len(out) != 1:
         return None
     return next(iter(out))
